@@ -1,6 +1,6 @@
 CONSTANT Mode = "greedy"
-CONSTANT N1s = {2}
-CONSTANT N2s = {2}
+CONSTANT N1s = {2, 3}
+CONSTANT N2s = {1, 2}
 CONSTANT Ks = {0, 1, 2}
 CONSTANT MaxRank = 2
 CONSTANT MaxCand = 4
